@@ -425,9 +425,17 @@ def render(t, style=None, ws=None):
     return join_tokens(render_tokens(t, style), ws)
 
 
+def fixed_dict(mapping):
+    """st.fixed_dictionaries written as tuples().map(): the same values, but decodable by Hypothesis' fuzz_one_input
+    (fixed_dictionaries with four or more entries one of which is a list never decoded from a byte string in
+    Hypothesis 6.168, which starved the coverage-guided parts)."""
+    keys = list(mapping)
+    return st.tuples(*[mapping[k] for k in keys]).map(lambda t: dict(zip(keys, t)))
+
+
 def styles():
     tape = st.lists(st.integers(0, 59), max_size=60)
-    return st.fixed_dictionaries({
+    return fixed_dict({
         'minus': st.sampled_from(['-', '-', '-', '—']),
         'redundant': st.sampled_from([0, 0, 2, 4]),
         'lead_plus': st.sampled_from([False, False, False, True]),
@@ -436,7 +444,7 @@ def styles():
 
 def whitespace_styles():
     tape = st.lists(st.integers(0, 59), max_size=80)
-    return st.one_of(st.none(), st.fixed_dictionaries({
+    return st.one_of(st.none(), fixed_dict({
         'spaces': st.sampled_from([0, 2, 4]), 'between': st.sampled_from([0, 3, 6]), 'tape': tape}))
 
 
